@@ -67,7 +67,7 @@ def make_cases(ctx, nprob, quota_=None):
         probs.append((p, [s for s in g.gen_subsets(ctx.rng, p, 2) if s[1]][:2]))
     for k in range(quota_.get("free", 0)):
         p = g.gen_problem(ctx.rng, family="free-" + g.FREE_KINDS[k % len(g.FREE_KINDS)], correlated=(k % 3 == 2))
-        probs.append((p, g.gen_proper_subsets(ctx.rng, p, 2, 1) + ([(list(range(1, p["n"] + 1)), True)] if k % 2 else [])))
+        probs.append((p, g.gen_proper_subsets(ctx.rng, p, 3, 1) + ([(list(range(1, p["n"] + 1)), True)] if k % 2 else [])))
     for k in range(quota_.get("parts", 0)):
         p = g.gen_problem(ctx.rng, family="parts", correlated=(k % 3 == 2))
         probs.append((p, g.gen_proper_subsets(ctx.rng, p, 2, 1)))
